@@ -4,7 +4,10 @@
 set -e
 cd "$(dirname "$0")/.."
 pid=$1
-git merge --no-commit --no-ff -X ours "wip-$pid" || true
+# local modifications of generated / rewritten files (evidence of a check run) must not block the merge
+git checkout -- evidence MANIFEST.json lean/Main.lean lean/GoZero.lean 2>/dev/null || true
+git merge --no-commit --no-ff -X ours "wip-$pid" || { git diff --name-only --diff-filter=U | grep -q . && echo "MERGE CONFLICT in wip-$pid" ; true; }
+if [ -n "$(git log --oneline HEAD..wip-$pid 2>/dev/null)" ] && ! git rev-parse -q --verify MERGE_HEAD >/dev/null; then echo "MERGE OF wip-$pid DID NOT HAPPEN (dirty tree?)"; exit 1; fi
 # generated files: always regenerate from props/*.json
 git checkout HEAD -- MANIFEST.json lean/Main.lean lean/GoZero.lean 2>/dev/null || true
 python3 - "$pid" <<'EOF'
